@@ -82,6 +82,15 @@ def damage_list(rng, seg, tier):
         new = L[:2 * pos] + codec.rnd_bytes(rng, k) + L[2 * pos + 2 * k:]
         if new != L:
             out.append(('over@%d+%d' % (pos, k), new, hit(pos, pos + k)))
+    # the two length fields of every record overwritten with boundary values (an 8-byte overwrite): both large and
+    # positive (their sum passes 2^31), one or both negative, just above the 64 MiB guard
+    LENS = ['4000000040000000', '7fffffff00000001', '7fffffff7fffffff', '8000000000000000', '0000000080000000',
+            'ffffffffffffffff', '0400000100000000', '0200000002000001', '7fffffff80000001']
+    for i, rp in enumerate(seg['positions']):
+        for lv in (LENS if tier == 'thorough' else rng.sample(LENS, 3)):
+            new = L[:2 * (rp + 20)] + lv + L[2 * (rp + 28):]
+            if new != L and recov.hexlen(new) == ln:
+                out.append(('lens@%d:%s' % (rp + 20, lv), new, hit(rp + 20, rp + 28)))
     for n in range(0, ln, step):
         out.append(('trunc@%d' % n, recov.hx_cut(L, n), None))
     for n in range(8, ln, 2 * step):
